@@ -471,6 +471,76 @@ def dup_record(data: bytes, i: int, sizes: tuple[int, int] | None = None) -> byt
     return bytes(b)
 
 
+def forge_zip64(data: bytes, i: int, fs: int, cs: int) -> bytes:
+    """Express the sizes of central record i through a ZIP64 extended-information extra field (0x0001): the 32-bit
+    fields become 0xFFFFFFFF and zipfile decodes the 64-bit values."""
+    recs, (eocd, cd_off, cd_size, count) = central_records(data)
+    p = recs[i][0]
+    end = recs[i + 1][0] if i + 1 < len(recs) else cd_off + cd_size
+    rec = bytearray(data[p:end])
+    nlen, elen, clen = struct.unpack("<HHH", rec[28:34])
+    extra = struct.pack("<HHQQ", 1, 16, fs, cs)
+    rec[20:24] = rec[24:28] = b"\xff\xff\xff\xff"
+    rec[30:32] = struct.pack("<H", elen + len(extra))
+    rec = rec[:46 + nlen] + extra + rec[46 + nlen:]
+    b = bytearray(data[:p]) + rec + bytearray(data[end:])
+    e2 = eocd + len(extra)
+    b[e2 + 12:e2 + 16] = struct.pack("<I", cd_size + len(extra))
+    return bytes(b)
+
+
+def forge_local(data: bytes, i: int, fs: int, cs: int, data_descriptor: bool = False) -> bytes:
+    """Rewrite the sizes in the LOCAL header of member i (the central directory stays as it is); with data_descriptor the
+    local header gets flag bit 3 and zero crc/sizes, as streaming writers produce."""
+    b = bytearray(data)
+    recs, _ = central_records(data)
+    p = recs[i][0]
+    lo = struct.unpack("<I", data[p + 42:p + 46])[0]
+    assert data[lo:lo + 4] == b"PK\x03\x04"
+    if data_descriptor:
+        flags = struct.unpack("<H", data[lo + 6:lo + 8])[0] | 0x08
+        b[lo + 6:lo + 8] = struct.pack("<H", flags)
+        b[p + 8:p + 10] = struct.pack("<H", struct.unpack("<H", data[p + 8:p + 10])[0] | 0x08)
+        b[lo + 14:lo + 26] = b"\0" * 12
+    else:
+        b[lo + 18:lo + 22] = struct.pack("<I", cs)
+        b[lo + 22:lo + 26] = struct.pack("<I", fs)
+    return bytes(b)
+
+
+class _Unseekable:
+    """write-only sink: zipfile then emits data descriptors (flag bit 3) instead of patching local headers"""
+    def __init__(self):
+        self.buf = bytearray()
+
+    def write(self, d):
+        self.buf += d
+        return len(d)
+
+    def flush(self):
+        pass
+
+
+def make_streamed_zip(members) -> bytes:
+    sink = _Unseekable()
+    with zipfile.ZipFile(sink, "w", zipfile.ZIP_DEFLATED) as zf:
+        for n, d in members:
+            zf.writestr(n, d)
+    return bytes(sink.buf)
+
+
+def manifest_encrypted(data: bytes) -> bool:
+    """oracle for is_odf_encrypted's last step (ElementTree): the manifest exists, parses, has an encryption-data element"""
+    from xml.etree import ElementTree as ET
+    try:
+        with _ORIG["init_cls"](io.BytesIO(data)) as zf:
+            m = zf.read("META-INF/manifest.xml")
+        root = ET.fromstring(m)
+    except Exception:  # noqa
+        return False
+    return any(isinstance(e.tag, str) and e.tag.rsplit("}", 1)[-1] == "encryption-data" for e in root.iter())
+
+
 def zip_entries(data: bytes):
     """What zipfile (the oracle) makes of the container: (opens, entries | None, pos_open, pos_close)."""
     bio = io.BytesIO(data)
@@ -506,6 +576,9 @@ class Monitor:
 
     def __init__(self):
         self.events: list[tuple] = []
+        self.objects: list[str] = []
+        self.streams: list = []
+        self.reads: list = []
         self.ids: dict[str, int] = {}
         self.depth = 0
         self.active = False
@@ -535,13 +608,56 @@ class Monitor:
             pass
         return "obj:%d" % id(file)
 
+    @staticmethod
+    def origin() -> str:
+        """who constructed / read the archive: 'repo' (sharepoint2text code), 'openpyxl', or 'other' (harness, stdlib)"""
+        import sys
+        f = sys._getframe(2)
+        while f is not None:
+            fn = f.f_code.co_filename
+            if "/openpyxl/" in fn:
+                return "openpyxl"
+            if "/sharepoint2text/" in fn and "/tests/" not in fn:
+                return "repo"
+            f = f.f_back
+        return "other"
+
     def install(self):
         from sharepoint2text.parsing.extractors.util import zip_bomb
         mon = self
         ZF = zipfile.ZipFile
         o_init, o_open, o_close = ZF.__init__, ZF.open, ZF.close
         o_validate = zip_bomb.validate_zipfile
-        self._saved = (o_init, o_open, o_close, o_validate)
+        o_getdec = zipfile._get_decompressor
+        o_read1 = zipfile.ZipExtFile._read1
+        self._saved = (o_init, o_open, o_close, o_validate, o_getdec, o_read1)
+
+        class DProxy:          # counts what the decompressor really produces
+            def __init__(s, d):
+                s._d, s.out = d, 0
+
+            def decompress(s, *a):
+                r = s._d.decompress(*a)
+                s.out += len(r)
+                return r
+
+            def flush(s, *a):
+                r = s._d.flush(*a)
+                s.out += len(r)
+                return r
+
+            def __getattr__(s, n):
+                return getattr(s._d, n)
+
+        def getdec(ct):
+            d = o_getdec(ct)
+            return DProxy(d) if (mon.active and d is not None) else d
+
+        def read1(fp, n):
+            r = o_read1(fp, n)
+            if mon.active:
+                fp._verif_ret = getattr(fp, "_verif_ret", 0) + len(r)
+            return r
 
         def init(zf, file, *a, **k):
             key = mon.key_of(file) if mon.active else None
@@ -549,16 +665,29 @@ class Monitor:
             if mon.active:
                 zf._verif_key = key
                 zf._verif_closed = False
-                mon.events.append(("open", mon.cid(zf)))
+                zf._verif_oid = len(mon.objects)
+                org = mon.origin()
+                mon.objects.append(org)
+                mon.events.append(("open", mon.cid(zf), zf._verif_oid, org))
 
         def open_(zf, *a, **k):
-            if mon.active and getattr(zf, "fp", None) is not None:
-                mon.events.append(("read", mon.cid(zf)))
-            return o_open(zf, *a, **k)
+            live = mon.active and getattr(zf, "fp", None) is not None
+            if live:
+                mon.events.append(("read", mon.cid(zf), getattr(zf, "_verif_oid", -1)))
+            fp = o_open(zf, *a, **k)
+            if live and isinstance(fp, zipfile.ZipExtFile):
+                zi = getattr(fp, "_zinfo", None) or (a[0] if a and isinstance(a[0], zipfile.ZipInfo) else None)
+                if zi is None:
+                    try:
+                        zi = zf.getinfo(a[0] if a else k.get("name"))
+                    except Exception:  # noqa
+                        zi = None
+                mon.streams.append((fp, mon.cid(zf), getattr(zi, "filename", "?"), int(getattr(zi, "file_size", -1)), mon.origin()))
+            return fp
 
         def close(zf):
             if mon.active and getattr(zf, "fp", None) is not None and hasattr(zf, "_verif_key"):
-                mon.events.append(("close", mon.cid(zf)))
+                mon.events.append(("close", mon.cid(zf), getattr(zf, "_verif_oid", -1)))
             return o_close(zf)
 
         def validate(zf, *a, **k):
@@ -567,29 +696,51 @@ class Monitor:
             try:
                 r = o_validate(zf, *a, **k)
             except BaseException:
-                mon.events.append(("validate", mon.cid(zf), False))
+                mon.events.append(("validate", mon.cid(zf), False, getattr(zf, "_verif_oid", -1)))
                 raise
-            mon.events.append(("validate", mon.cid(zf), True))
+            mon.events.append(("validate", mon.cid(zf), True, getattr(zf, "_verif_oid", -1)))
             return r
 
         ZF.__init__, ZF.open, ZF.close = init, open_, close
         zip_bomb.validate_zipfile = validate
+        zipfile._get_decompressor = getdec
+        zipfile.ZipExtFile._read1 = read1
         return self
 
     def uninstall(self):
         from sharepoint2text.parsing.extractors.util import zip_bomb
         ZF = zipfile.ZipFile
-        ZF.__init__, ZF.open, ZF.close, zip_bomb.validate_zipfile = self._saved
+        (ZF.__init__, ZF.open, ZF.close, zip_bomb.validate_zipfile, zipfile._get_decompressor,
+         zipfile.ZipExtFile._read1) = self._saved
 
     def record(self):
         self.events = []
         self.ids = {}
+        self.objects = []
+        self.streams = []
+        self.reads = []
         self.active = True
         return self
 
     def stop(self):
         self.active = False
+        # per member read: (container, member, declared file_size, bytes returned to the caller, bytes the decompressor produced, origin)
+        self.reads = [(c, nm, decl, getattr(fp, "_verif_ret", 0), getattr(getattr(fp, "_decompressor", None), "out", None), org)
+                      for fp, c, nm, decl, org in self.streams]
+        self.streams = []
         return list(self.events)
+
+
+def objects_validated(ev) -> list:
+    """archives constructed by repository code whose members are read without a validate_zipfile call on that very object"""
+    validated, bad = set(), []
+    repo = {e[2] for e in ev if e[0] == "open" and e[3] == "repo"}
+    for e in ev:
+        if e[0] == "validate" and e[2]:
+            validated.add(e[3])
+        elif e[0] == "read" and e[2] in repo and e[2] not in validated:
+            bad.append(e)
+    return bad
 
 
 def trace_dominated(ev) -> bool:
@@ -689,6 +840,21 @@ def forged_variants(data: bytes, default, thorough: bool):
     out.append(("attr-all-files-dirbits-plain", forge(data, {}, attrs={i: 7 for i in files})))
     out.append(("attr-dosdir-single+1", forge(data, {f0: (S + 1, S // ER + 2)}, attrs={f0: 2})) if S + 1 < 2 ** 32 else ("plain2", data))
     out.append(("attr-dosdir-zero", forge(data, {f0: (1, 0)}, attrs={f0: 2})))
+    # which sizes are judged: the central directory's (ZIP64 extra decoded), never the local header / data descriptor
+    recs0, _ = central_records(data)
+    real = {}
+    for i in files:
+        p0 = recs0[i][0]
+        real[i] = (struct.unpack("<I", data[p0 + 24:p0 + 28])[0], struct.unpack("<I", data[p0 + 20:p0 + 24])[0],
+                   struct.unpack("<H", data[p0 + 10:p0 + 12])[0])
+    out.append(("zip64-same-sizes", forge_zip64(data, f0, real[f0][0], real[f0][1])))
+    out.append(("zip64-single+1", forge_zip64(data, f0, S + 1, S // ER + 2)))
+    out.append(("zip64-huge", forge_zip64(data, f0, 2 ** 40, 2 ** 33)))
+    out.append(("local-claims-huge", forge_local(data, f0, 2 ** 32 - 2, 1)))
+    out.append(("local-claims-zero", forge_local(data, f0, 0, 0)))
+    out.append(("local-data-descriptor", forge_local(data, f0, 0, 0, data_descriptor=True)))
+    # the central directory understates every deflated member (claims ratio 1): accepted by the claim-based guard
+    out.append(("central-understates", forge(data, {i: (real[i][1], real[i][1]) for i in files if real[i][2] == 8 and real[i][1] > 0})))
     # a member name listed twice: zipfile reads the LAST record of a name, the guard must look at every record
     out.append(("dup-name-last-bomb", dup_record(data, f0, (ER * 7 + 1, 7))))
     out.append(("dup-name-last-zero", dup_record(data, f0, (1, 0))))
@@ -788,6 +954,30 @@ def inventory(ctx):
                         bad_sub.append(f"{rel}:{nm}")
     ctx.obligation("inventory:ZipContext subclasses call super().__init__ first", not bad_sub, f"{bad_sub}")
     ctx.extra["zipcontext_classes"] = sorted(names)
+    # opener call sites per container-extractor module: every kind must be a validating one
+    validating = set(names) | {"open_zipfile", "validate_zip_bytesio", "is_odf_encrypted", "is_ooxml_encrypted"}
+    raw_kinds = {"zipfile.ZipFile", "ZipFile", "zipfile.PyZipFile", "load_workbook", "zipfile.is_zipfile", "is_zipfile"}
+    per_module, unvalidated_sites = {}, []
+    for rel, tree in trees.items():
+        if not (rel.startswith("parsing/extractors/ms_modern/") or rel.startswith("parsing/extractors/open_office/")
+                or rel == "parsing/extractors/epub_extractor.py"):
+            continue
+        counts = {}
+        for node in ast.walk(tree):
+            if isinstance(node, ast.Call):
+                cn = call_name(node)
+                short = cn.split(".")[-1]
+                if cn in raw_kinds or short in validating or short == "load_workbook":
+                    counts[short] = counts.get(short, 0) + 1
+                    if (cn in raw_kinds or short == "load_workbook") and short != "load_workbook":
+                        unvalidated_sites.append(f"{rel}:{node.lineno} {cn}(")
+        if counts:
+            per_module[rel] = counts
+    ctx.extra["opener_call_sites(static)"] = per_module
+    modules_with_opens = [m for m in per_module if m.endswith("_extractor.py")]
+    ctx.obligation("inventory:opener call sites per container extractor counted; each is a validating opener (ZipContext class / "
+                   "open_zipfile / validate_zip_bytesio / is_odf_encrypted) or a guarded load_workbook",
+                   not unvalidated_sites and len(modules_with_opens) >= 9, f"raw opens: {unvalidated_sites}; modules: {sorted(per_module)}")
     # load_workbook( only in xlsx_extractor.py; inside a function it follows validate_zip_bytesio on the same bytes
     problems, dead = [], []
     for rel, tree in trees.items():
@@ -949,6 +1139,15 @@ def refill(buf: io.BytesIO, content: bytes, pos: int):
     buf.seek(pos)
 
 
+def odf_samples():
+    MAN = '<manifest:manifest xmlns:manifest="urn:oasis:names:tc:opendocument:xmlns:manifest:1.0">%s</manifest:manifest>'
+    odf_enc = make_zip([("mimetype", b"application/vnd.oasis.opendocument.text"), ("META-INF/manifest.xml", (MAN % (
+        '<manifest:file-entry manifest:full-path="content.xml"><manifest:encryption-data/></manifest:file-entry>')).encode())])
+    odf_plain = make_zip([("mimetype", b"application/vnd.oasis.opendocument.text"),
+                          ("META-INF/manifest.xml", (MAN % '<manifest:file-entry manifest:full-path="content.xml"/>').encode())])
+    return odf_enc, odf_plain
+
+
 def guard_sessions(ctx, zb, ZipContext, pre):
     rng = ctx.rng
     default = zb.DEFAULT_ZIP_BOMB_LIMITS
@@ -958,7 +1157,12 @@ def guard_sessions(ctx, zb, ZipContext, pre):
     base2 = make_zip([("x", b"hello"), ("y", b"")], deflate=False)
     contents = {"base": base, "base2": base2, "bomb-default": forge(base, {0: (500 * 9 + 1, 9)}),
                 "zero": forge(base, {2: (1, 0)}), "bomb-low-only": forge(base2, {0: (401, 401)}), "notzip": b"no zip here"}
+    odf_enc, odf_plain = odf_samples()
+    contents.update({"odf-encrypted": odf_enc, "odf-plain": odf_plain,
+                     "odf-encrypted-bomb": forge(odf_enc, {1: (500 * 9 + 1, 9)}), "truncated": base[: len(base) - 9]})
     oracles = {k: zip_entries(v) for k, v in contents.items()}
+    is_zip = {k: bool(zipfile.is_zipfile(io.BytesIO(v))) for k, v in contents.items()}
+    enc = {k: manifest_encrypted(v) for k, v in contents.items()}
     steps = [(c, op, ln) for c in contents for op, lns in (("validate_zip_bytesio", ("default", "low")), ("open_zipfile", ("default", "low")),
                                                            ("ZipContext", ("default",)), ("is_odf_encrypted", ("default",)))
              for ln in lns]
@@ -966,6 +1170,14 @@ def guard_sessions(ctx, zb, ZipContext, pre):
     for c, op, ln in steps:
         fresh[(c, op, ln)] = guard_call(zb, ZipContext, io.BytesIO(contents[c]), op, lims[ln])
     sessions = [[a, b] for a in steps for b in steps]
+    n_pairs_all = len(sessions)
+    if ctx.tier != "thorough":   # 60 steps -> 3600 ordered pairs; quick keeps every pair whose second step opens the archive
+        keep, rest = [], []      # through open_zipfile, or that reuses the content, and a sample of the others
+        for s_ in sessions:
+            (keep if s_[1][1] in ("open_zipfile", "ZipContext", "is_odf_encrypted") or s_[0][0] == s_[1][0] else rest).append(s_)
+        rng.shuffle(rest)
+        sessions = keep + rest[:150]
+    n_pairs = len(sessions)
     for _ in range(ctx.n(150, 1500)):
         sessions.append([rng.choice(steps) for _ in range(rng.randint(3, 5))])
     scases, sinfo = [], []
@@ -992,15 +1204,15 @@ def guard_sessions(ctx, zb, ZipContext, pre):
         ctx.case(("session", mode, tuple(sess)), True, kind=f"session:{mode}:{len(sess)}")
         calls, codes = [], []
         for (c, op, ln), r in zip(sess, got):
-            if op == "is_odf_encrypted":
-                continue
             opens, es, p1, p2 = oracles[c]
             infos = "None" if es is None else "(Some " + entries_coq(es) + ")"
             o = f"(mkO {'true' if opens else 'false'} {infos} {p1} {p2})"
             ctor = {"validate_zip_bytesio": f"CValidateBytesio {limits_coq(lims[ln])} 0 {o}",
-                    "open_zipfile": f"COpenZipfile {limits_coq(lims[ln])} {o}", "ZipContext": f"CZipContext {limits_coq(default)} {o}"}[op]
+                    "open_zipfile": f"COpenZipfile {limits_coq(lims[ln])} {o}", "ZipContext": f"CZipContext {limits_coq(default)} {o}",
+                    "is_odf_encrypted": f"CIsOdfEncrypted {limits_coq(default)} {'true' if is_zip[c] else 'false'} {o} "
+                                        f"{'true' if enc[c] else 'false'}"}[op]
             calls.append(ctor)
-            codes.append(str(r if r in (0, 1, 2, 3) else 9))
+            codes.append(str(r if r in (0, 1, 2, 3) else {"enc:False": 10, "enc:True": 11}.get(r, 9)))
         scases.append("([" + "; ".join(calls) + "], [" + "; ".join(codes) + "])")
         sinfo.append((mode, sess, got))
     pres = pre + "From S2T Require Import C11.ModelSession.\n"
@@ -1010,8 +1222,9 @@ def guard_sessions(ctx, zb, ZipContext, pre):
                    (f"{len(fsn)} disagreements, first: {sinfo[fsn[0]] if fsn else ''} " + logs)[:1200])
     ctx.traces += len(scases)
     ctx.disagreements += len(fsn)
-    ctx.extra["sessions"] = {"pairs_exhaustive": len(steps) ** 2, "steps": len(steps), "random_longer": len(sessions) - len(steps) ** 2,
-                             "sampled": "all ordered pairs of (6 contents x 6 op/limit combinations) + random sessions of length 3-5; "
+    ctx.extra["sessions"] = {"pairs_possible": len(steps) ** 2, "sessions_run": len(sessions), "steps": len(steps), "pairs_run": n_pairs, "random_longer": len(sessions) - n_pairs,
+                             "sampled": "ordered pairs of (10 contents x 6 op/limit combinations): all in the thorough tier; quick keeps all pairs whose second "
+                                        "call opens the archive or reuses the content + 150 others; + random sessions of length 3-5; "
                                         "3 of 4 sessions on one reused BytesIO object"}
 
 
@@ -1103,7 +1316,8 @@ def run(ctx):
     ctx.prove("C11/Props.v", ["C11/Proofs.vo", "C11/ProofsNames.vo"], expected=[
         "C11_rejects_iff", "C11_accepts_iff", "C11_never_overflows", "C11_ratio_exact", "C11_float_gt_sound", "C11_reject_sound_all_limits", "C11_dirs_ignored",
         "C11_count_counts_dirs", "C11_position_preserved", "C11_validate_dominates_reads",
-        "C11_read_implies_accepted", "C11_trace_ok_sound", "C11_attrs_irrelevant", "C11_file_member_never_ignored", "C11_names_irrelevant", "C11_session_history_independent", "C11_rejects_iff_unrestricted_refuted",
+        "C11_read_implies_accepted", "C11_trace_ok_sound", "C11_attrs_irrelevant", "C11_file_member_never_ignored", "C11_names_irrelevant", "C11_session_history_independent", "C11_odf_encrypted_only_if_validated",
+        "C11_odf_probe_validate_dominates_read", "C11_accept_bounds", "C11_accepted_output_bounded", "C11_rejects_iff_unrestricted_refuted",
         "C11_overflow_unrestricted_refuted"])
     ctx.prove("C11/Inst.v", ["Gen/C11Limits.vo", "C11/Corr.vo", "C11/Proofs.vo"], expected=[
         "C11_default_limits_exact", "C11_default_guard_exact"])
@@ -1409,9 +1623,40 @@ def run(ctx):
         ctx.traces += len(zcases)
         ctx.disagreements += len(fz)
 
+        # (d') one is_odf_encrypted call: its events must be those of the model (read only after validation)
+        from sharepoint2text.parsing.extractors.util import encryption
+        odf_enc, odf_plain = odf_samples()
+        pcases, pinfo = [], []
+        for cname, data in zconts + [("odf-encrypted", odf_enc), ("odf-plain", odf_plain), ("truncated", base[: len(base) - 9]),
+                                      ("odf-encrypted-bomb", forge(odf_enc, {1: (500 * 9 + 1, 9)}))]:
+            opens, es, p1, p2 = zip_entries(data)
+            isz = bool(zipfile.is_zipfile(io.BytesIO(data)))
+            mon.record()
+            try:
+                res = encryption.is_odf_encrypted(io.BytesIO(data))
+            except Exception as e:  # noqa
+                res = type(e).__name__
+            ev = mon.stop()
+            traces.append(ev)
+            ctx.case(("odf-probe", cname), True, kind="is_odf_encrypted")
+            if res is True and (es is None or bomb_clauses(default, es)):
+                ctx.finding(f"odf-probe-answers-on-bomb:{cname}", "is_odf_encrypted answered True for a container the guard must reject",
+                            {"container": data})
+            if not trace_dominated(ev) or objects_validated(ev):
+                ctx.finding(f"read-before-validate:is_odf_encrypted:{cname}", f"is_odf_encrypted read a member before validation: {ev}",
+                            {"container": data, "events": ev})
+            infos = "None" if es is None else "(Some " + entries_coq(es) + ")"
+            pcases.append(f"(default_limits, {'true' if isz else 'false'}, (mkO {'true' if opens else 'false'} {infos} {p1} {p2}), {trace_coq(ev)})")
+            pinfo.append((cname, res, ev))
+        okp, fp_, logp = coq_eval_shards(ctx, "odfprobe", prez + "From S2T Require Import C11.ModelSession.\n", "corr_odf_probe", pcases,
+                                         shard=300, ty="limits * bool * zip_oracle * list event")
+        ctx.obligation("correspondence:model odf_probe_events == monitored is_odf_encrypted call", okp and not fp_,
+                       (f"{len(fp_)} disagreements, first: {pinfo[fp_[0]] if fp_ else ''} " + logp)[:1000])
+        ctx.traces += len(pcases)
         lap("zipcontext")
         # (e) the extractors on fixtures and forged variants
         seen_fmt = set()
+        opens_stat, plain_out, truncation_broken, n_reads = {}, {}, [], [0]
         for fmt, fn, fixtures in container_extractors():
             for fx in fixtures[: ctx.n(2, 5)]:
                 data0 = fx.read_bytes()
@@ -1424,6 +1669,39 @@ def run(ctx):
                     seen_fmt.add(fmt)
                     clauses = bomb_clauses(default, es) if es is not None else None
                     ctx.case(("extractor", fmt, fx.name, vname), vname != "plain", kind=f"extractor:{fmt}:{out.split(':')[0]}")
+                    # --- opens per extractor; every archive constructed by repository code is itself validated
+                    st = opens_stat.setdefault(fmt, {"runs": 0, "opens_repo": 0, "opens_openpyxl": 0, "validations": 0, "member_reads": 0})
+                    st["runs"] += 1
+                    st["opens_repo"] += sum(1 for e in ev if e[0] == "open" and e[3] == "repo")
+                    st["opens_openpyxl"] += sum(1 for e in ev if e[0] == "open" and e[3] == "openpyxl")
+                    st["validations"] += sum(1 for e in ev if e[0] == "validate")
+                    st["member_reads"] += sum(1 for e in ev if e[0] == "read")
+                    if vname == "plain":
+                        st["opens_per_plain_run"] = [sum(1 for e in ev if e[0] == "open" and e[3] == o_) for o_ in ("repo", "openpyxl")]
+                        plain_out[(fmt, fx.name)] = out
+                    badobj = objects_validated(ev)
+                    if badobj:
+                        ctx.finding(f"open-without-validation:{fmt}", f"{fn.__name__} read members through a ZipFile object that repository "
+                                    f"code constructed and never passed to validate_zipfile ({fx.name}, {vname}): {badobj[:4]}",
+                                    {"fixture": str(fx), "variant": vname, "events": ev})
+                    # --- what a read costs: returned bytes <= claimed file_size (zipfile truncates: assumption of
+                    #     C11_accepted_output_bounded); bytes produced by the decompressor vs the claim
+                    for c_, nm_, decl, ret, infl, org in mon.reads:
+                        n_reads[0] += 1
+                        if decl >= 0 and ret > decl:
+                            truncation_broken.append((fmt, fx.name, vname, nm_, decl, ret))
+                        if decl >= 0 and infl is not None and infl > decl + 8192:
+                            site = "openpyxl" if org == "openpyxl" else "ZipFile.read"
+                            ctx.finding(f"inflate-exceeds-declared-size:{site}",
+                                        f"{fn.__name__} ({fx.name}, {vname}): member {nm_!r} claims file_size {decl} in the central directory "
+                                        f"(accepted by the guard) but reading it made the decompressor produce {infl} bytes in memory before "
+                                        f"zipfile cut the result down to the claim (handed out {ret} bytes; a CRC error follows)",
+                                        {"fixture": str(fx), "variant": vname, "member": nm_, "declared": decl, "inflated": infl, "returned": ret})
+                    # --- the local header / data descriptor are never consulted: same outcome as the unmodified fixture
+                    if vname.startswith("local-") and out != plain_out.get((fmt, fx.name)):
+                        ctx.finding(f"local-header-consulted:{fmt}:{vname}", f"{fn.__name__} -> {out} on {fx.name} with only LOCAL header sizes "
+                                    f"changed ({vname}), {plain_out.get((fmt, fx.name))} on the unmodified file",
+                                    {"fixture": str(fx), "variant": vname, "outcome": out})
                     if not any(e[0] == "validate" for e in ev):
                         ctx.finding(f"never-validated:{fmt}", f"{fn.__name__} never validated the container ({fx.name}, {vname})",
                                     {"fixture": str(fx), "variant": vname, "events": ev})
@@ -1442,6 +1720,10 @@ def run(ctx):
                             ctx.finding(f"extractor-rejects-nonbomb:{fmt}:{vname}", f"{fn.__name__} raised the zip-bomb error although "
                                         f"no clause holds ({fx.name}, {vname})", {"fixture": str(fx), "variant": vname, "outcome": out})
         extractor_sessions(ctx, mon, default, traces)
+        ctx.obligation("assumption:zipfile hands out at most the central directory's file_size per member read (ZipExtFile truncates)",
+                       not truncation_broken and n_reads[0] > 0, f"{truncation_broken[:3]} over {n_reads[0]} member reads")
+        ctx.extra["opens_per_extractor(monitor)"] = opens_stat
+        ctx.extra["member_reads_measured"] = n_reads[0]
         lap("extractors")
         ctx.obligation("monitor:all 9 ZIP-container extractors exercised", len(seen_fmt) == 9, f"{sorted(seen_fmt)}")
         tcases = [trace_coq(t) for t in traces]
